@@ -16,7 +16,7 @@ EXPLANATION = (
     "(module, node): shared with C09.R2. (R4) the evaluator honours the resolver's binding (shared with C08.R1-R3): a use must not "
     "evaluate to a same-named binding of a caller. Correctness of values and attachment to the right declaration need a reference "
     "semantics and are not decided.")
-EXPLANATION += " Further clauses: (R5) NAME-AGREE - a field filled from a like-named field or annotation key is filled from that one; (R6) ENUM-MAP - the sibling mapping tables agree; (R7) FALLBACK-ORDER - precedence of the two sources of one field (frozen table of 4 rows); (R8) REF-TRANSPARENT - every cast treats a named reference as its value; (R9) JOIN-AGREE (shared C10.R5); (R10) every `res` statement is enumerated; (R11) COMPONENT-KEPT (shared C03.R1). (R12) COMBINE - the combinators of spec.rs carry what the language says (concat: the right operand's query parameters only; a schema used as content keeps its description; a URI used as relation is its uri). (R13) MERGED-ENTRY - an output entry shared by several declarations is added to, never overwritten field-wise; (R14) GRAMMAR-AGREE - every kind of child a production attaches is read by some typed accessor of the parent; (R15) SHARED-VALUE - the cached value of a reference does not depend on use-site annotations. R12 also requires the whole right path to be appended by concat; (R16) RANGE-KEY - the status of a response is fixed when its content is evaluated and the emitter uses the key unchanged; (R17) ANNOTATION-PLACE (shared C05.R1)."
+EXPLANATION += " Further clauses: (R5) NAME-AGREE - a field filled from a like-named field or annotation key is filled from that one; (R6) ENUM-MAP - the sibling mapping tables agree; (R7) FALLBACK-ORDER - precedence of the two sources of one field (frozen table of 4 rows); (R8) REF-TRANSPARENT - every cast treats a named reference as its value; (R9) JOIN-AGREE (shared C10.R5); (R10) every `res` statement is enumerated; (R11) COMPONENT-KEPT (shared C03.R1). (R12) COMBINE - the combinators of spec.rs carry what the language says (concat: the right operand's query parameters only; a schema used as content keeps its description; a URI used as relation is its uri). (R13) MERGED-ENTRY - an output entry shared by several declarations is added to, never overwritten field-wise; (R14) GRAMMAR-AGREE - every kind of child a production attaches is read by some typed accessor of the parent; (R15) SHARED-VALUE - the cached value of a reference does not depend on use-site annotations. R12 also requires the whole right path to be appended by concat; (R16) RANGE-KEY - the status of a response is fixed when its content is evaluated and the emitter uses the key unchanged; (R17) ANNOTATION-PLACE (shared C05.R1); (R18) PER-CONTENT - headers and description are taken from every content of a transfer, with or without a body."
 TECHNIQUE = "static analysis: field read/write census on MIR + insertion-site census classified by resolved callee with a frozen triage table"
 
 SPEC_OWNER = re.compile(r'^(oal_compiler::)?spec::(\w+)$')
@@ -390,6 +390,41 @@ def r13_merged_assign(c, facts, rule='C02.R13'):
     c.floor(R, 'shared-entry lookups examined', nsites, 2)
 
 
+def r18_per_content(c, facts, rule='C02.R18'):
+    """a response has headers and a description whether or not it has a body: in the loop over the contents of a
+    transfer the two are taken from every content - not only from those with a schema (`<status=201, headers={..}>`)"""
+    R = c.rule(rule, 'PER-CONTENT: the headers and the description of a response are emitted for every content of the transfer, with or without a body')
+    fn = facts.normalised(c.anchor(R, 'oal_openapi::Builder::xfer_responses'))
+    nx = [(b, t) for b, t in P.call_blocks(fn, 'Iterator::next') if b in {x for sx in fn.succ(b) for x in fn.reachable_from(sx)}]
+    if not nx:
+        c.bad(R, 'xfer_responses:loop-not-found', 'xfer_responses: cannot find the loop over the contents')
+        return
+    nb, nt = nx[0]
+    sites = {}
+    for b, blk in fn.blocks():
+        for st in blk['stmts']:
+            if st['s'] != 'assign':
+                continue
+            rv = st['rv']
+            pls = [rv['place']] if rv['r'] in ('ref', 'rawptr') else [o for o in MF.operands_of_rvalue(rv) if 'l' in o]
+            for pl in pls:
+                for pr in pl.get('proj', []):
+                    if pr['p'] == 'field' and (pr.get('owner') or '').endswith('spec::Content') and pr.get('name') == 'desc':
+                        sites.setdefault('description', set()).add(b)
+        t = blk['term']
+        if t['t'] == 'call' and P.name_is((callee_of(t) or {}).get('def', ''), 'content_headers'):
+            sites.setdefault('headers', set()).add(b)
+    for what in ('headers', 'description'):
+        bs = sites.get(what)
+        inst = {'part': what, 'sites': sorted(bs or [])}
+        if not bs:
+            c.bad(R, 'xfer_responses:%s-not-read' % what, 'xfer_responses no longer takes the %s of a content' % what, **inst)
+        elif nb in fn.reachable_from(nt['target'], avoid=bs):
+            c.bad(R, 'xfer_responses:%s-skipped-for-some-contents' % what, 'xfer_responses can go on to the next content without having taken the %s of the present one (a content without a body): the declared %s of such a response is dropped' % (what, what), **inst)
+        else:
+            c.ok(R, inst)
+
+
 def taint_forward(fn, seeds):
     """locals that may hold (part of) the seeds: through assignments, references, call results, and `&mut` arguments of
     calls that also receive a tainted argument (`a.extend(b)`)."""
@@ -585,6 +620,7 @@ def r16_range_key(c, facts, rule='C02.R16'):
 def run(c, facts):
     import grammar
     c.run(lambda c: grammar.agree(c, facts, 'C02.R14', floor=12))
+    c.run(r18_per_content, facts)
     c.run(r13_merged_assign, facts)
     import c05 as _c05
     R17 = c.rule('C02.R17', 'ANNOTATION-PLACE: annotations written at a use, on a parameter occurrence or on parentheses reach the value they are written on, with the precedence the language defines (shared with C05.R1)')
@@ -700,7 +736,8 @@ def r5_name_agree(c, facts):
     # evaluator side: annotation keys
     nkeys = 0
     for fn in sorted(facts.fns.values(), key=lambda f: f.qname):
-        if not fn.qname.startswith('oal_compiler::eval::eval_') and not fn.qname.startswith('oal_compiler::eval::cast_') or not fn.mir:
+        # every function of the evaluator (the aggregates may be built in private constructors of their own)
+        if not fn.qname.startswith('oal_compiler::eval::') or not fn.mir:
             continue
         idx = MF.defs_index(fn)
         for b, blk in fn.blocks():
@@ -1078,6 +1115,21 @@ def r8_ref_transparent(c, facts, rule='C02.R8'):
             c.skip(R, q, 'branch taken for Expr::Reference not decidable')
             continue
         selfcall = any(e['k'] == 'call' and callee_id(e) == fn.id for e, _ in hir_walk(leaf))
+        if not selfcall:
+            # cast = g . h with h(Reference(_, v)) = h(v): the parameter is handed, once and whole, to a private
+            # helper that itself recurses into the referenced value (`match strip_references(from).0 { .. }`)
+            uses = [e for e, _ in hir_walk(fn.hir['body']) if e['k'] == 'path' and e['p'].get('res') == 'local' and env.get(e['p']['hid']) == 'TRACKED']
+            for e, _ in hir_walk(fn.hir['body']):
+                if e['k'] != 'call' or len(e.get('args', [])) != 1 or len(uses) != 1 or e['args'][0] is not uses[0]:
+                    continue
+                h = facts.fns.get(callee_id(e))
+                if h is None or not h.hir or h.id == fn.id or len(h.hir['params']) != 1:
+                    continue
+                henv = {}
+                it.mark(h.hir['params'][0], henv)
+                hleaf = selected_branch(it, h.hir['body'], 'Reference', henv)
+                if hleaf is not None and any(x['k'] == 'call' and callee_id(x) == h.id for x, _ in hir_walk(hleaf)):
+                    selfcall = True
         inst = {'cast': name, 'on Reference': 'recurses into the referenced value' if selfcall else 'does something else'}
         if selfcall:
             c.ok(R, inst)
